@@ -671,9 +671,130 @@ fn run_hosted_send(sr: u32, ctx: &mut Ctx) {
 	}
 }
 
+/// a delay on a main / sub / nested / nested-under-spatial track of a manager whose device rate changes before the
+/// impulse: the echoes come after delay_time seconds at the rate in force
+fn run_hosted_rate_change(ctx: &mut Ctx) {
+	use crate::rig;
+	use kira::sound::{Sound, SoundData};
+	use kira::track::{MainTrackBuilder, SpatialTrackBuilder, TrackBuilder};
+	use std::sync::atomic::{AtomicBool, Ordering};
+	use std::sync::Arc;
+	struct Imp(Arc<AtomicBool>);
+	impl Sound for Imp {
+		fn process(&mut self, out: &mut [Frame], _dt: f64, _info: &Info) {
+			out.fill(Frame::ZERO);
+			if self.0.swap(false, Ordering::SeqCst) {
+				out[0] = Frame::new(0.5, -0.25);
+			}
+		}
+		fn finished(&self) -> bool {
+			false
+		}
+	}
+	struct ImpData(Arc<AtomicBool>);
+	impl SoundData for ImpData {
+		type Error = ();
+		type Handle = ();
+		fn into_sound(self) -> Result<(Box<dyn Sound>, ()), ()> {
+			Ok((Box::new(Imp(self.0)), ()))
+		}
+	}
+	const N: usize = 64;
+	let us = 2500u64;
+	for (r1, r2) in [(48000u32, 96000u32), (96000, 44100), (8000, 48000)] {
+		for host in 0..5 {
+			ctx.evals += 1;
+			let d = ((us as f64 * 1e-6 * r2 as f64).round() as usize).max(1);
+			let detail = format!(
+				"DelayBuilder delay_time={} us feedback=-6 dB mix=1 on {}; manager started at {} Hz, 2 callbacks, on_change_sample_rate({}), 1 callback, then an impulse (0.5, -0.25); expected echoes every {} frames",
+				us,
+				["the main track", "a sub-track", "a nested sub-track (depth 2)", "a nested sub-track (depth 3)", "a plain track nested under a spatial track"][host],
+				r1,
+				r2,
+				d
+			);
+			let r = catch(|| -> Result<Vec<S2>, String> {
+				let fx = || DelayBuilder::new().delay_time(Duration::from_micros(us)).feedback(Decibels(-6.0)).mix(Mix::WET);
+				let main = if host == 0 { MainTrackBuilder::new().with_effect(fx()) } else { MainTrackBuilder::new() };
+				let mut m = rig::manager(r1, 32, rig::caps(4), main);
+				let fire = Arc::new(AtomicBool::new(false));
+				let mut keep: Vec<Box<dyn std::any::Any>> = vec![];
+				let lim = |_| "resource limit".to_string();
+				match host {
+					0 => {
+						m.play(ImpData(fire.clone())).map_err(|_| "play")?;
+					}
+					1 => {
+						let mut t = m.add_sub_track(TrackBuilder::new().with_effect(fx())).map_err(lim)?;
+						t.play(ImpData(fire.clone())).map_err(|_| "play")?;
+						keep.push(Box::new(t));
+					}
+					2 | 3 => {
+						let mut p = m.add_sub_track(TrackBuilder::new()).map_err(lim)?;
+						let mut q = if host == 3 { Some(p.add_sub_track(TrackBuilder::new()).map_err(lim)?) } else { None };
+						let mut t = match q.as_mut() {
+							Some(q) => q.add_sub_track(TrackBuilder::new().with_effect(fx())).map_err(lim)?,
+							None => p.add_sub_track(TrackBuilder::new().with_effect(fx())).map_err(lim)?,
+						};
+						t.play(ImpData(fire.clone())).map_err(|_| "play")?;
+						keep.push(Box::new(t));
+						keep.push(Box::new(q));
+						keep.push(Box::new(p));
+					}
+					_ => {
+						let l = m.add_listener(glam::Vec3::ZERO, glam::Quat::IDENTITY).map_err(lim)?;
+						let mut p = m.add_spatial_sub_track(&l, glam::Vec3::new(0.0, 0.0, -1.0), SpatialTrackBuilder::new().attenuation_function(None).spatialization_strength(0.0)).map_err(lim)?;
+						let mut t = p.add_sub_track(TrackBuilder::new().with_effect(fx())).map_err(lim)?;
+						t.play(ImpData(fire.clone())).map_err(|_| "play")?;
+						keep.push(Box::new(t));
+						keep.push(Box::new(p));
+						keep.push(Box::new(l));
+					}
+				}
+				let mut sink = vec![];
+				for _ in 0..2 {
+					rig::render_stereo(&mut m, N, &mut sink);
+				}
+				m.backend_mut().renderer.as_mut().unwrap().on_change_sample_rate(r2);
+				rig::render_stereo(&mut m, N, &mut sink);
+				fire.store(true, Ordering::SeqCst);
+				let mut out: Vec<(f32, f32)> = vec![];
+				let total = (4 * d + 2 * N).max(8 * N);
+				while out.len() < total {
+					let rep = rig::render_stereo(&mut m, N, &mut out);
+					if let Some(p) = rep.panic {
+						return Err(p);
+					}
+				}
+				drop(keep);
+				Ok(out.iter().map(|f| [f.0, f.1]).collect())
+			})
+			.and_then(|r| r);
+			let y = match r {
+				Ok(y) => y,
+				Err(p) => {
+					ctx.fail(format!("panic: {} :: delay on a hosted track across a rate change", p), detail);
+					continue;
+				}
+			};
+			let mut x = vec![[0.0f32; 2]; y.len()];
+			x[0] = [0.5, -0.25];
+			note(ctx, &x, &y);
+			let want = ref_delay(&x, d, amp(-6.0), 1.0, 0);
+			if let Some(df) = differs(&y, &want, &x) {
+				ctx.fail(
+					format!("delay: output differs from the reference delay line with feedback path :: hosted on {} across a device rate change", ["the main track", "a sub-track", "a nested track", "a nested track", "a track nested under a spatial track"][host]),
+					format!("{}; {}", detail, df),
+				);
+			}
+		}
+	}
+}
+
 fn run_delay(tier: Tier, sr: u32, ctx: &mut Ctx) {
 	if sr == 48000 && !via() {
 		run_hosted_send(sr, ctx);
+		run_hosted_rate_change(ctx);
 	}
 	let times_us: &[u64] = tier.pick(&[10, 1000, 2500, 9000], &[10, 1000, 2500, 9000, 22_675, 100_000, 250_250]);
 	for &us in times_us {
@@ -870,6 +991,26 @@ fn run_reverb(tier: Tier, sr: u32, feedback: f64, ctx: &mut Ctx) {
 									format!("{} input={} / 4096, {} frames; {}", detail, SIGNALS[si], n, df),
 								);
 								return;
+							}
+						}
+						// "at any sample rate": an instance that ran at another rate first and was then told the rate of this case
+						// (kira rebuilds the network, cleared) is the network of this rate
+						if si == 2 && !via() {
+							for prev in [48000u32, 44100, 22050] {
+								if prev == sr {
+									continue;
+								}
+								let mut fx = Fx::new(ReverbBuilder::new().feedback(feedback).damping(damping).stereo_width(width).mix(Mix(mix)), prev);
+								let _ = fx.run(&signal(2, 300));
+								fx.retune(sr);
+								let yr = fx.run(&x);
+								if let Some(df) = differs(&yr, &ref_reverb(&x, sr, feedback as f32, damping as f32, width as f32, mix), &x) {
+									ctx.fail(
+										"reverb: after a sample-rate change the output differs from the Freeverb network of the new rate, sample by sample".to_string(),
+										format!("{} (first 300 frames at {} Hz, then on_change_sample_rate({})) input={} {} frames; {}", detail, prev, sr, SIGNALS[si], n, df),
+									);
+									return;
+								}
 							}
 						}
 						if let Some(df) = differs(&y, &ref_reverb(&x, sr, feedback as f32, damping as f32, width as f32, mix), &x) {
